@@ -168,6 +168,10 @@ val filter : ('a1 -> bool) -> 'a1 list -> 'a1 list
 
 val find : ('a1 -> bool) -> 'a1 list -> 'a1 option
 
+val combine : 'a1 list -> 'a2 list -> ('a1 * 'a2) list
+
+val skipn : nat -> 'a1 list -> 'a1 list
+
 val seq : nat -> nat -> nat list
 
 val repeat : 'a1 -> nat -> 'a1 list
@@ -495,6 +499,14 @@ val with_topics : server -> topic list -> server
 
 type raw_msg = str * (str * str) list
 
+type outcome =
+| OStatus of n
+| OReset
+| ORefused
+| OHang
+
+val accepted : outcome -> bool
+
 type req =
 | RCreateTopic of str
 | RGetTopic of str
@@ -518,6 +530,7 @@ type req =
 | RStreamRead of n
 | RPullBg of n * str * z
 | RJoin of n
+| RPushSub of name * outcome list
 
 type subres = { r_name : str; r_topic : str; r_ackdl : n; r_push : str option }
 
@@ -535,6 +548,7 @@ type resp =
 | PStream of lease list list * n option
 | PPending
 | PJoined of (n, lease list) sum
+| PPushed of (lease * outcome) list
 | PNone
 
 val timer_fired : n -> sub0 -> bool
@@ -674,8 +688,31 @@ val resp_acks : resp -> str list
 
 val is_blocking_pull : str list -> (str * str) option
 
+val ep_prefix : str
+
+val parse_outcome : str -> outcome option
+
+val r_outcome : outcome -> str
+
+val ep_index : str -> n option
+
+val ep_script : (n * outcome list) list -> n -> outcome list
+
+val ep_set :
+  (n * outcome list) list -> n -> outcome list -> (n * outcome list) list
+
+val r_post : n -> str -> (lease * outcome) -> str list
+
+val push_round :
+  server -> (n * outcome list) list -> (name * str) list ->
+  ((server * (n * outcome list) list) * ((n * str) * (lease * outcome))
+  list) * bool
+
+val sorted_registry : server -> (name * str) list
+
 val run_lines :
-  server -> n list -> str list -> (n * str) list -> str list list -> str list
+  server -> n list -> str list -> (n * str) list -> (n * outcome list) list
+  -> str list list -> str list
 
 val tokens : str -> str list
 
